@@ -131,10 +131,16 @@ class Geometry:
             self.cached_voxel_volume = self.voxel_volume * scaling
 
         # ! ---- Perform spatial integration
+        # Spatially varying voxel volumes act on the spatial axes only: add trailing
+        # axes for the time and data components.
+        volume = self.cached_voxel_volume
+        if isinstance(volume, np.ndarray):
+            num_trailing_axes = fetched_data.ndim - volume.ndim
+            volume = volume.reshape(volume.shape + (1,) * num_trailing_axes)
         if isinstance(data, np.ndarray):
-            weighted_sum = np.multiply(self.cached_voxel_volume, data)
+            weighted_sum = np.multiply(volume, data)
         elif isinstance(data, darsia.Image):
-            weighted_sum = np.multiply(self.cached_voxel_volume, data.img)
+            weighted_sum = np.multiply(volume, data.img)
         else:
             raise ValueError("Data type not supported.")
         for i in range(self.space_dim):
